@@ -97,7 +97,11 @@ def main(names):
             continue
         meta_path = os.path.join(os.path.dirname(patch_path), "meta.json")
         if os.path.exists(meta_path):
-            prop = json.load(open(meta_path))["property"]
+            meta = json.load(open(meta_path))
+            if meta.get("obsolete"):
+                print("%-40s SKIPPED (obsolete: %s)" % (name, meta["obsolete"]), flush=True)
+                continue
+            prop = meta["property"]
         else:
             prop = "C10" if name[0] in "acegikm" else "C16"
         todo.append(("seeded", name, prop, patch_path))
